@@ -3,6 +3,7 @@ package props
 import (
 	"encoding/json"
 	"fmt"
+	"reflect"
 	"strings"
 	"sync"
 
@@ -47,11 +48,12 @@ type c14wit struct {
 }
 
 type c14stats struct {
-	mu      sync.Mutex
-	invokes int
-	nested  int
-	errs    int
-	depth   int
+	argsModified string // set when an Invoke changed the host's argument slice
+	mu           sync.Mutex
+	invokes      int
+	nested       int
+	errs         int
+	depth        int
 }
 
 // c14call builds the Go CALL callback for a variant.
@@ -81,6 +83,20 @@ func c14call(variant string, st *c14stats) (*ugo.Function, func()) {
 		}()
 		var v ugo.Object
 		var err error
+		orig := append([]ugo.Object{}, args...)
+		defer func() {
+			// the host's argument slice belongs to the host: Invoke must leave its elements alone (a script call packs
+			// variadic arguments into a fresh array; contents of reference values may of course be changed by the callee)
+			for i := range orig {
+				if !c14sameObject(orig[i], args[i]) {
+					st.mu.Lock()
+					if st.argsModified == "" {
+						st.argsModified = fmt.Sprintf("element %d of the argument slice passed to Invoke changed from %s to %s", i, canon.Value(orig[i]), canon.Value(args[i]))
+					}
+					st.mu.Unlock()
+				}
+			}
+		}()
 		switch variant {
 		case "pooled":
 			inv := ugo.NewInvoker(c.VM(), f)
@@ -126,6 +142,27 @@ func c14call(variant string, st *c14stats) (*ugo.Function, func()) {
 	return fn, cleanup
 }
 
+// c14sameObject: same scalar value, or the same reference (slice start and length / map / pointer).
+func c14sameObject(a, b ugo.Object) bool {
+	if a == nil || b == nil {
+		return a == nil && b == nil
+	}
+	va, vb := reflect.ValueOf(a), reflect.ValueOf(b)
+	if va.Type() != vb.Type() {
+		return false
+	}
+	switch va.Kind() {
+	case reflect.Slice:
+		return va.Len() == vb.Len() && (va.Len() == 0 || va.Pointer() == vb.Pointer())
+	case reflect.Map, reflect.Ptr, reflect.Func:
+		return va.Pointer() == vb.Pointer()
+	}
+	if va.Type().Comparable() {
+		return a == b
+	}
+	return true
+}
+
 // c14insertCall puts the script-level CALL definition after the leading global/param declarations.
 func c14insertCall(src string) string {
 	lines := strings.SplitAfter(src, "\n")
@@ -167,6 +204,10 @@ func (m c14) pair(c *core.Ctx, src string, modules map[string]string, args []ugo
 	}
 	c.Count("compared")
 	c.Count("variant." + variant)
+	if st.argsModified != "" {
+		c.Violation("C14|host-args-modified|"+variant, "Invoke modifies the argument slice of its Go caller: "+st.argsModified, c14wit{Src: src, Modules: modules, Variant: variant, Why: st.argsModified, Args: renderArgs(args)})
+		return true, st
+	}
 	c.CountN("invocations", int64(st.invokes))
 	c.CountN("nested_invocations", int64(st.nested))
 	c.CountN("errors_propagated", int64(st.errs))
@@ -198,6 +239,9 @@ var c14probes = []string{
 	"global L\nouter := func(n) {\n  inner := func(k) { return k * n }\n  return CALL(inner, 2) + CALL(inner, 3)\n}\nreturn [CALL(outer, 1), CALL(outer, 10)]",
 	"global L\nvar fact\nfact = func(n) {\n  if n <= 1 {\n    return 1\n  }\n  return n * CALL(fact, n - 1)\n}\nreturn CALL(fact, 6)",
 	"global L\nf := func() {\n  try {\n    return import(\"mod0\").bump(1)\n  } finally {\n    L(\"fin\")\n  }\n}\nCALL(f)\nimport(\"mod0\").bump(10)\nreturn [CALL(f), import(\"mod0\").get()]",
+	// variadic functions that write to / keep their rest parameter
+	"global L\nbump := func(a, ...rest) {\n  rest[0] += a\n  return rest[0]\n}\nL(CALL(bump, 10, 1, 2))\nL(CALL(bump, 10, 1, 2))\nkeep := []\nhold := func(...r) {\n  keep = append(keep, r)\n  r[0] = \"w\"\n  return len(r)\n}\nL(CALL(hold, 1, 2))\nL(CALL(hold, 3))\nreturn keep",
+	"global L\nall := func(...r) {\n  for i := 0; i < len(r); i++ {\n    r[i] = r[i] * 2\n  }\n  return r\n}\nx := CALL(all, 1, 2, 3)\ny := CALL(all, x[0], x[1], x[2])\nx[0] = 100\nreturn [x, y, CALL(all)]",
 	"global L\nnoret := func() { L(\"side\") }\nreturn [CALL(noret), CALL(func() { return undefined })]",
 	"global L\nf := func(a, b) { return a - b }\ntry {\n  return CALL(f, 1)\n} catch e {\n  return e.Name\n}",
 }
